@@ -308,7 +308,7 @@ crate::harnesses! {
     #[kani::stub(alloc::fmt::format, stub_format)]
     #[kani::stub(std::string::ToString::to_string, stub_to_string)]
     #[kani::unwind(14)]
-    c09_read_bits_u8_le (quick, "BufBitReader<LE, strict MemWordReader<u8>>, K=10", "data truncated after any number of words 0..=K, any Inv_r state; op read_bits: Ok with the right value iff the bits it needs lie within the data") => strict_step_le::<u8, _, 10, {OP_READ_BITS}>;
+    c09_read_bits_u8_le (thorough, "BufBitReader<LE, strict MemWordReader<u8>>, K=10", "data truncated after any number of words 0..=K, any Inv_r state; op read_bits: Ok with the right value iff the bits it needs lie within the data") => strict_step_le::<u8, _, 10, {OP_READ_BITS}>;
     #[kani::stub(alloc::fmt::format, stub_format)]
     #[kani::stub(std::string::ToString::to_string, stub_to_string)]
     #[kani::unwind(10)]
@@ -328,7 +328,7 @@ crate::harnesses! {
     #[kani::stub(alloc::fmt::format, stub_format)]
     #[kani::stub(std::string::ToString::to_string, stub_to_string)]
     #[kani::unwind(7)]
-    c09_read_bits_u64_be (quick, "BufBitReader<BE, strict MemWordReader<u64>>, K=3", "data truncated after any number of words 0..=K, any Inv_r state; op read_bits: Ok with the right value iff the bits it needs lie within the data") => strict_step_be::<u64, _, 3, {OP_READ_BITS}>;
+    c09_read_bits_u64_be (thorough, "BufBitReader<BE, strict MemWordReader<u64>>, K=3", "data truncated after any number of words 0..=K, any Inv_r state; op read_bits: Ok with the right value iff the bits it needs lie within the data") => strict_step_be::<u64, _, 3, {OP_READ_BITS}>;
     #[kani::stub(alloc::fmt::format, stub_format)]
     #[kani::stub(std::string::ToString::to_string, stub_to_string)]
     #[kani::unwind(7)]
@@ -340,7 +340,7 @@ crate::harnesses! {
     #[kani::stub(alloc::fmt::format, stub_format)]
     #[kani::stub(std::string::ToString::to_string, stub_to_string)]
     #[kani::unwind(14)]
-    c09_read_unary_u8_le (quick, "BufBitReader<LE, strict MemWordReader<u8>>, K=10", "data truncated after any number of words 0..=K, any Inv_r state; op read_unary: Ok with the right value iff the bits it needs lie within the data") => strict_step_le::<u8, _, 10, {OP_READ_UNARY}>;
+    c09_read_unary_u8_le (thorough, "BufBitReader<LE, strict MemWordReader<u8>>, K=10", "data truncated after any number of words 0..=K, any Inv_r state; op read_unary: Ok with the right value iff the bits it needs lie within the data") => strict_step_le::<u8, _, 10, {OP_READ_UNARY}>;
     #[kani::stub(alloc::fmt::format, stub_format)]
     #[kani::stub(std::string::ToString::to_string, stub_to_string)]
     #[kani::unwind(10)]
@@ -360,7 +360,7 @@ crate::harnesses! {
     #[kani::stub(alloc::fmt::format, stub_format)]
     #[kani::stub(std::string::ToString::to_string, stub_to_string)]
     #[kani::unwind(7)]
-    c09_read_unary_u64_be (quick, "BufBitReader<BE, strict MemWordReader<u64>>, K=3", "data truncated after any number of words 0..=K, any Inv_r state; op read_unary: Ok with the right value iff the bits it needs lie within the data") => strict_step_be::<u64, _, 3, {OP_READ_UNARY}>;
+    c09_read_unary_u64_be (thorough, "BufBitReader<BE, strict MemWordReader<u64>>, K=3", "data truncated after any number of words 0..=K, any Inv_r state; op read_unary: Ok with the right value iff the bits it needs lie within the data") => strict_step_be::<u64, _, 3, {OP_READ_UNARY}>;
     #[kani::stub(alloc::fmt::format, stub_format)]
     #[kani::stub(std::string::ToString::to_string, stub_to_string)]
     #[kani::unwind(7)]
@@ -392,7 +392,7 @@ crate::harnesses! {
     #[kani::stub(alloc::fmt::format, stub_format)]
     #[kani::stub(std::string::ToString::to_string, stub_to_string)]
     #[kani::unwind(7)]
-    c09_peek_u64_be (quick, "BufBitReader<BE, strict MemWordReader<u64>>, K=3", "data truncated after any number of words 0..=K, any Inv_r state; op peek: Ok with the right value iff the bits it needs lie within the data") => strict_step_be::<u64, _, 3, {OP_PEEK}>;
+    c09_peek_u64_be (thorough, "BufBitReader<BE, strict MemWordReader<u64>>, K=3", "data truncated after any number of words 0..=K, any Inv_r state; op peek: Ok with the right value iff the bits it needs lie within the data") => strict_step_be::<u64, _, 3, {OP_PEEK}>;
     #[kani::stub(alloc::fmt::format, stub_format)]
     #[kani::stub(std::string::ToString::to_string, stub_to_string)]
     #[kani::unwind(7)]
@@ -424,7 +424,7 @@ crate::harnesses! {
     #[kani::stub(alloc::fmt::format, stub_format)]
     #[kani::stub(std::string::ToString::to_string, stub_to_string)]
     #[kani::unwind(7)]
-    c09_skip_u64_be (quick, "BufBitReader<BE, strict MemWordReader<u64>>, K=3", "data truncated after any number of words 0..=K, any Inv_r state; op skip: Ok with the right value iff the bits it needs lie within the data") => strict_step_be::<u64, _, 3, {OP_SKIP}>;
+    c09_skip_u64_be (thorough, "BufBitReader<BE, strict MemWordReader<u64>>, K=3", "data truncated after any number of words 0..=K, any Inv_r state; op skip: Ok with the right value iff the bits it needs lie within the data") => strict_step_be::<u64, _, 3, {OP_SKIP}>;
     #[kani::stub(alloc::fmt::format, stub_format)]
     #[kani::stub(std::string::ToString::to_string, stub_to_string)]
     #[kani::unwind(7)]
@@ -448,7 +448,7 @@ crate::harnesses! {
     #[kani::stub(alloc::fmt::format, stub_format)]
     #[kani::stub(std::string::ToString::to_string, stub_to_string)]
     #[kani::unwind(7)]
-    c09_gamma_tab_u64_be (quick, "BufBitReader<BE, strict MemWordReader<u64>>, K=3", "data truncated after any number of words 0..=K, any Inv_r state; op gamma_tab: Ok with the right value iff the bits it needs lie within the data") => strict_step_be::<u64, _, 3, {OP_GAMMA_T}>;
+    c09_gamma_tab_u64_be (thorough, "BufBitReader<BE, strict MemWordReader<u64>>, K=3", "data truncated after any number of words 0..=K, any Inv_r state; op gamma_tab: Ok with the right value iff the bits it needs lie within the data") => strict_step_be::<u64, _, 3, {OP_GAMMA_T}>;
     #[kani::stub(alloc::fmt::format, stub_format)]
     #[kani::stub(std::string::ToString::to_string, stub_to_string)]
     #[kani::unwind(7)]
@@ -456,7 +456,7 @@ crate::harnesses! {
     #[kani::stub(alloc::fmt::format, stub_format)]
     #[kani::stub(std::string::ToString::to_string, stub_to_string)]
     #[kani::unwind(10)]
-    c09_delta_tab_u16_be (quick, "BufBitReader<BE, strict MemWordReader<u16>>, K=6", "data truncated after any number of words 0..=K, any Inv_r state; op delta_tab: Ok with the right value iff the bits it needs lie within the data") => strict_step_be::<u16, _, 6, {OP_DELTA_TT}>;
+    c09_delta_tab_u16_be (thorough, "BufBitReader<BE, strict MemWordReader<u16>>, K=6", "data truncated after any number of words 0..=K, any Inv_r state; op delta_tab: Ok with the right value iff the bits it needs lie within the data") => strict_step_be::<u16, _, 6, {OP_DELTA_TT}>;
     #[kani::stub(alloc::fmt::format, stub_format)]
     #[kani::stub(std::string::ToString::to_string, stub_to_string)]
     #[kani::unwind(10)]
@@ -472,7 +472,7 @@ crate::harnesses! {
     #[kani::stub(alloc::fmt::format, stub_format)]
     #[kani::stub(std::string::ToString::to_string, stub_to_string)]
     #[kani::unwind(7)]
-    c09_delta_tab_u64_be (quick, "BufBitReader<BE, strict MemWordReader<u64>>, K=3", "data truncated after any number of words 0..=K, any Inv_r state; op delta_tab: Ok with the right value iff the bits it needs lie within the data") => strict_step_be::<u64, _, 3, {OP_DELTA_TT}>;
+    c09_delta_tab_u64_be (thorough, "BufBitReader<BE, strict MemWordReader<u64>>, K=3", "data truncated after any number of words 0..=K, any Inv_r state; op delta_tab: Ok with the right value iff the bits it needs lie within the data") => strict_step_be::<u64, _, 3, {OP_DELTA_TT}>;
     #[kani::stub(alloc::fmt::format, stub_format)]
     #[kani::stub(std::string::ToString::to_string, stub_to_string)]
     #[kani::unwind(7)]
@@ -480,7 +480,7 @@ crate::harnesses! {
     #[kani::stub(alloc::fmt::format, stub_format)]
     #[kani::stub(std::string::ToString::to_string, stub_to_string)]
     #[kani::unwind(10)]
-    c09_zeta3_tab_u16_be (quick, "BufBitReader<BE, strict MemWordReader<u16>>, K=6", "data truncated after any number of words 0..=K, any Inv_r state; op zeta3_tab: Ok with the right value iff the bits it needs lie within the data") => strict_step_be::<u16, _, 6, {OP_ZETA3_T}>;
+    c09_zeta3_tab_u16_be (thorough, "BufBitReader<BE, strict MemWordReader<u16>>, K=6", "data truncated after any number of words 0..=K, any Inv_r state; op zeta3_tab: Ok with the right value iff the bits it needs lie within the data") => strict_step_be::<u16, _, 6, {OP_ZETA3_T}>;
     #[kani::stub(alloc::fmt::format, stub_format)]
     #[kani::stub(std::string::ToString::to_string, stub_to_string)]
     #[kani::unwind(10)]
@@ -496,7 +496,7 @@ crate::harnesses! {
     #[kani::stub(alloc::fmt::format, stub_format)]
     #[kani::stub(std::string::ToString::to_string, stub_to_string)]
     #[kani::unwind(7)]
-    c09_zeta3_tab_u64_be (quick, "BufBitReader<BE, strict MemWordReader<u64>>, K=3", "data truncated after any number of words 0..=K, any Inv_r state; op zeta3_tab: Ok with the right value iff the bits it needs lie within the data") => strict_step_be::<u64, _, 3, {OP_ZETA3_T}>;
+    c09_zeta3_tab_u64_be (thorough, "BufBitReader<BE, strict MemWordReader<u64>>, K=3", "data truncated after any number of words 0..=K, any Inv_r state; op zeta3_tab: Ok with the right value iff the bits it needs lie within the data") => strict_step_be::<u64, _, 3, {OP_ZETA3_T}>;
     #[kani::stub(alloc::fmt::format, stub_format)]
     #[kani::stub(std::string::ToString::to_string, stub_to_string)]
     #[kani::unwind(7)]
@@ -512,7 +512,7 @@ crate::harnesses! {
     #[kani::stub(alloc::fmt::format, stub_format)]
     #[kani::stub(std::string::ToString::to_string, stub_to_string)]
     #[kani::unwind(10)]
-    c09_omega_u16_be (quick, "BufBitReader<BE, strict MemWordReader<u16>>, K=6", "data truncated after any number of words 0..=K, any Inv_r state; op omega: Ok with the right value iff the bits it needs lie within the data") => strict_step_be::<u16, _, 6, {OP_OMEGA}>;
+    c09_omega_u16_be (thorough, "BufBitReader<BE, strict MemWordReader<u16>>, K=6", "data truncated after any number of words 0..=K, any Inv_r state; op omega: Ok with the right value iff the bits it needs lie within the data") => strict_step_be::<u16, _, 6, {OP_OMEGA}>;
     #[kani::stub(alloc::fmt::format, stub_format)]
     #[kani::stub(std::string::ToString::to_string, stub_to_string)]
     #[kani::unwind(10)]
@@ -524,11 +524,11 @@ crate::harnesses! {
     #[kani::stub(alloc::fmt::format, stub_format)]
     #[kani::stub(std::string::ToString::to_string, stub_to_string)]
     #[kani::unwind(8)]
-    c09_omega_u32_le (quick, "BufBitReader<LE, strict MemWordReader<u32>>, K=4", "data truncated after any number of words 0..=K, any Inv_r state; op omega: Ok with the right value iff the bits it needs lie within the data") => strict_step_le::<u32, _, 4, {OP_OMEGA}>;
+    c09_omega_u32_le (thorough, "BufBitReader<LE, strict MemWordReader<u32>>, K=4", "data truncated after any number of words 0..=K, any Inv_r state; op omega: Ok with the right value iff the bits it needs lie within the data") => strict_step_le::<u32, _, 4, {OP_OMEGA}>;
     #[kani::stub(alloc::fmt::format, stub_format)]
     #[kani::stub(std::string::ToString::to_string, stub_to_string)]
     #[kani::unwind(7)]
-    c09_omega_u64_be (quick, "BufBitReader<BE, strict MemWordReader<u64>>, K=3", "data truncated after any number of words 0..=K, any Inv_r state; op omega: Ok with the right value iff the bits it needs lie within the data") => strict_step_be::<u64, _, 3, {OP_OMEGA}>;
+    c09_omega_u64_be (thorough, "BufBitReader<BE, strict MemWordReader<u64>>, K=3", "data truncated after any number of words 0..=K, any Inv_r state; op omega: Ok with the right value iff the bits it needs lie within the data") => strict_step_be::<u64, _, 3, {OP_OMEGA}>;
     #[kani::stub(alloc::fmt::format, stub_format)]
     #[kani::stub(std::string::ToString::to_string, stub_to_string)]
     #[kani::unwind(7)]
@@ -544,7 +544,7 @@ crate::harnesses! {
     #[kani::stub(alloc::fmt::format, stub_format)]
     #[kani::stub(std::string::ToString::to_string, stub_to_string)]
     #[kani::unwind(10)]
-    c09_gamma_u16_be (quick, "BufBitReader<BE, strict MemWordReader<u16>>, K=6", "data truncated after any number of words 0..=K, any Inv_r state; op gamma: Ok with the right value iff the bits it needs lie within the data") => strict_step_be::<u16, _, 6, {OP_GAMMA}>;
+    c09_gamma_u16_be (thorough, "BufBitReader<BE, strict MemWordReader<u16>>, K=6", "data truncated after any number of words 0..=K, any Inv_r state; op gamma: Ok with the right value iff the bits it needs lie within the data") => strict_step_be::<u16, _, 6, {OP_GAMMA}>;
     #[kani::stub(alloc::fmt::format, stub_format)]
     #[kani::stub(std::string::ToString::to_string, stub_to_string)]
     #[kani::unwind(10)]
@@ -556,11 +556,11 @@ crate::harnesses! {
     #[kani::stub(alloc::fmt::format, stub_format)]
     #[kani::stub(std::string::ToString::to_string, stub_to_string)]
     #[kani::unwind(8)]
-    c09_gamma_u32_le (quick, "BufBitReader<LE, strict MemWordReader<u32>>, K=4", "data truncated after any number of words 0..=K, any Inv_r state; op gamma: Ok with the right value iff the bits it needs lie within the data") => strict_step_le::<u32, _, 4, {OP_GAMMA}>;
+    c09_gamma_u32_le (thorough, "BufBitReader<LE, strict MemWordReader<u32>>, K=4", "data truncated after any number of words 0..=K, any Inv_r state; op gamma: Ok with the right value iff the bits it needs lie within the data") => strict_step_le::<u32, _, 4, {OP_GAMMA}>;
     #[kani::stub(alloc::fmt::format, stub_format)]
     #[kani::stub(std::string::ToString::to_string, stub_to_string)]
     #[kani::unwind(7)]
-    c09_gamma_u64_be (quick, "BufBitReader<BE, strict MemWordReader<u64>>, K=3", "data truncated after any number of words 0..=K, any Inv_r state; op gamma: Ok with the right value iff the bits it needs lie within the data") => strict_step_be::<u64, _, 3, {OP_GAMMA}>;
+    c09_gamma_u64_be (thorough, "BufBitReader<BE, strict MemWordReader<u64>>, K=3", "data truncated after any number of words 0..=K, any Inv_r state; op gamma: Ok with the right value iff the bits it needs lie within the data") => strict_step_be::<u64, _, 3, {OP_GAMMA}>;
     #[kani::stub(alloc::fmt::format, stub_format)]
     #[kani::stub(std::string::ToString::to_string, stub_to_string)]
     #[kani::unwind(7)]
@@ -576,7 +576,7 @@ crate::harnesses! {
     #[kani::stub(alloc::fmt::format, stub_format)]
     #[kani::stub(std::string::ToString::to_string, stub_to_string)]
     #[kani::unwind(10)]
-    c09_vbyte_u16_be (quick, "BufBitReader<BE, strict MemWordReader<u16>>, K=6", "data truncated after any number of words 0..=K, any Inv_r state; op vbyte: Ok with the right value iff the bits it needs lie within the data") => strict_step_be::<u16, _, 6, {OP_VBYTE}>;
+    c09_vbyte_u16_be (thorough, "BufBitReader<BE, strict MemWordReader<u16>>, K=6", "data truncated after any number of words 0..=K, any Inv_r state; op vbyte: Ok with the right value iff the bits it needs lie within the data") => strict_step_be::<u16, _, 6, {OP_VBYTE}>;
     #[kani::stub(alloc::fmt::format, stub_format)]
     #[kani::stub(std::string::ToString::to_string, stub_to_string)]
     #[kani::unwind(10)]
@@ -588,11 +588,11 @@ crate::harnesses! {
     #[kani::stub(alloc::fmt::format, stub_format)]
     #[kani::stub(std::string::ToString::to_string, stub_to_string)]
     #[kani::unwind(8)]
-    c09_vbyte_u32_le (quick, "BufBitReader<LE, strict MemWordReader<u32>>, K=4", "data truncated after any number of words 0..=K, any Inv_r state; op vbyte: Ok with the right value iff the bits it needs lie within the data") => strict_step_le::<u32, _, 4, {OP_VBYTE}>;
+    c09_vbyte_u32_le (thorough, "BufBitReader<LE, strict MemWordReader<u32>>, K=4", "data truncated after any number of words 0..=K, any Inv_r state; op vbyte: Ok with the right value iff the bits it needs lie within the data") => strict_step_le::<u32, _, 4, {OP_VBYTE}>;
     #[kani::stub(alloc::fmt::format, stub_format)]
     #[kani::stub(std::string::ToString::to_string, stub_to_string)]
     #[kani::unwind(7)]
-    c09_vbyte_u64_be (quick, "BufBitReader<BE, strict MemWordReader<u64>>, K=3", "data truncated after any number of words 0..=K, any Inv_r state; op vbyte: Ok with the right value iff the bits it needs lie within the data") => strict_step_be::<u64, _, 3, {OP_VBYTE}>;
+    c09_vbyte_u64_be (thorough, "BufBitReader<BE, strict MemWordReader<u64>>, K=3", "data truncated after any number of words 0..=K, any Inv_r state; op vbyte: Ok with the right value iff the bits it needs lie within the data") => strict_step_be::<u64, _, 3, {OP_VBYTE}>;
     #[kani::stub(alloc::fmt::format, stub_format)]
     #[kani::stub(std::string::ToString::to_string, stub_to_string)]
     #[kani::unwind(7)]
@@ -632,7 +632,7 @@ crate::harnesses! {
     #[kani::stub(alloc::fmt::format, stub_format)]
     #[kani::stub(std::string::ToString::to_string, stub_to_string)]
     #[kani::unwind(7)]
-    c09_ub_delta_tab_be (thorough, "BitReader<BE> (unbuffered) over a strict MemWordReader<u64>, K=3", "data truncated after any number of words 0..=3, any bit position; op delta_tab: Ok with the right value iff the bits it needs lie within the data") => ub_strict_step_be::<_, 3, {OP_DELTA_TT}>;
+    c09_ub_delta_tab_be (quick, "BitReader<BE> (unbuffered) over a strict MemWordReader<u64>, K=3", "data truncated after any number of words 0..=3, any bit position; op delta_tab: Ok with the right value iff the bits it needs lie within the data") => ub_strict_step_be::<_, 3, {OP_DELTA_TT}>;
     #[kani::stub(alloc::fmt::format, stub_format)]
     #[kani::stub(std::string::ToString::to_string, stub_to_string)]
     #[kani::unwind(7)]
@@ -648,7 +648,7 @@ crate::harnesses! {
     #[kani::stub(alloc::fmt::format, stub_format)]
     #[kani::stub(std::string::ToString::to_string, stub_to_string)]
     #[kani::unwind(7)]
-    c09_ub_omega_be (quick, "BitReader<BE> (unbuffered) over a strict MemWordReader<u64>, K=3", "data truncated after any number of words 0..=3, any bit position; op omega: Ok with the right value iff the bits it needs lie within the data") => ub_strict_step_be::<_, 3, {OP_OMEGA}>;
+    c09_ub_omega_be (thorough, "BitReader<BE> (unbuffered) over a strict MemWordReader<u64>, K=3", "data truncated after any number of words 0..=3, any bit position; op omega: Ok with the right value iff the bits it needs lie within the data") => ub_strict_step_be::<_, 3, {OP_OMEGA}>;
     #[kani::stub(alloc::fmt::format, stub_format)]
     #[kani::stub(std::string::ToString::to_string, stub_to_string)]
     #[kani::unwind(7)]
